@@ -113,6 +113,30 @@ ASSUMPTIONS = [
     "a clean batch is evidence, not proof: the space is sampled",
 ]
 
+# reach probes that a run of the property's check is expected to hit; one at
+# zero means the workload or fault mix must change (it does not fail the
+# property, it is reported)
+REQUIRED_PROBES = {
+    "C01": ["read-served-with-valid-index", "read-served-by-scan",
+            "search-matched-proper-subset", "read-after-partial-remove",
+            "read-after-remove_all-then-insert",
+            "read-on-out-of-order-storage", "scan-instance-compared"],
+    "C02": ["noop-write"],
+    "C04": ["read-flushed-buffered-rows", "read-stopped-early",
+            "suspended-reader-advanced"],
+    "C08": ["naive-time", "naive-time-in-fold", "time-in-named-zone",
+            "time-with-utc-offset", "time-at-range-end", "time-less-point",
+            "reopen-other-tz", "clock-back"],
+    "C12": ["crash-in-swap-window", "crash-left-temp-file",
+            "recovered-after-crash"],
+    "C13": ["admissible-set-opened", "admissible-set-collapsed",
+            "ioerror-injected"],
+    "C15": ["write-in-readonly-mode", "noop-write",
+            "file-rewritten-by-another-program", "ioerror-injected"],
+    "C16": ["read-stopped-early", "suspended-reader-advanced",
+            "ioerror-injected"],
+}
+
 COMPONENTS = {
     "real": ["tinyflux.database", "tinyflux.index", "tinyflux.measurement",
              "tinyflux.point", "tinyflux.queries", "tinyflux.storages",
@@ -312,6 +336,10 @@ def do_check(prop, tier, args):
           "wall=%.1fs" % (agg.runs, agg.cases, agg.ops, agg.steps, agg.evals,
                           len(agg.nontrivial), sum(agg.foreign.values()),
                           wall))
+    for pr in REQUIRED_PROBES.get(prop, []):
+        if not agg.probes.get(pr):
+            print("  PROBE-AT-ZERO %s: %s (the workload never reached it)"
+                  % (prop, pr))
     if agg.foreign:
         for k, v in sorted(agg.foreign.items(), key=lambda x: -x[1])[:5]:
             print("  note: %d runs ended early on a divergence owned by "
@@ -363,6 +391,8 @@ def write_evidence(prop, tier, seed, agg, wall, n_viol, reg_n, n_known,
                 agg.foreign.values()),
             "insert_steps_per_point_by_size": {
                 str(k): v for k, v in sorted(agg.sizes.items())},
+            "probes_at_zero": [p for p in REQUIRED_PROBES.get(prop, [])
+                               if not agg.probes.get(p)],
             "regression_replays": reg_n,
             "known_finding_hits": n_known,
             "components": COMPONENTS,
